@@ -203,6 +203,16 @@ class TypesWalk:
                     best = top
         return best
 
+    def leaves_walk_early(self, valuation: Dict[str, bool]) -> bool:
+        """can one turn of the token loop end the walk (break / return; raising is not counted)?  Decided along the edges the valuation
+        leaves open with the tests evaluated in the context of the WHOLE function, so that a flag bound before the loop (an option of a
+        helper analysed in place, `tolerate = False`) decides `if tolerate and ..: break` -- L.leaves_loop_early starts its search at the
+        loop body and does not see definitions made before it"""
+        og = OpenGraph(self.G, valuation)
+        head = self.g.node_of(self.loop)
+        starts = [m for m in og.succ.get(head, []) if m in self.inside]
+        return og.reaches(starts, lambda n: n not in self.inside and n not in (self.g.raise_, head), avoid={head})
+
     # -- sites
     def ctor_calls(self) -> List[Tuple[ast.Call, Optional[ast.AST], Optional[ast.AST]]]:
         """(constructor call, name argument, parent argument) of every type constructed"""
